@@ -335,18 +335,18 @@ func (e *Engine) execGo(st *State, fr *Frame, g *ssa.Go) {
 		e.obligation(st, "go-pre", key+"."+lab+"@"+pos, e.evalBool(r.E, se), r.Src)
 	}
 	e.calleeEntryHeld(st, c, key, pos, true)
-	e.appendLog(st, "go_"+shortFuncName(callee), args, Val{T: types.NewTuple()})
+	e.appendLog(st, "go_"+shortFuncName(callee), append(args[:len(args):len(args)], e.loopIters(fr)...), Val{T: types.NewTuple()})
 }
 
 // logCall: `opt logcalls f g`: calls of the named functions are recorded in the call log of that name.
-func (e *Engine) logCall(st *State, callee *ssa.Function, args []Val) {
+func (e *Engine) logCall(st *State, fr *Frame, callee *ssa.Function, args []Val) {
 	if e.rootC == nil {
 		return
 	}
 	for _, l := range e.rootC.Extra["logcalls"] {
 		for _, n := range strings.Fields(l) {
 			if n == shortFuncName(callee) {
-				e.appendLog(st, n, args, Val{T: types.NewTuple()})
+				e.appendLog(st, n, append(args[:len(args):len(args)], e.loopIters(fr)...), Val{T: types.NewTuple()})
 			}
 		}
 	}
@@ -390,4 +390,43 @@ func shortFuncName(f *ssa.Function) string {
 		n = n[:i]
 	}
 	return n
+}
+
+// loopIters: for every loop of the root function (by ordinal) the index of the element its range statement is
+// currently visiting (rangeindex + 1), or -1 when the call site is not inside that loop. Recorded with every logged
+// call as ghost arguments (spec: logiter(f, loop, k)), so that contracts of nested fan-out loops stay linear.
+func (e *Engine) loopIters(fr *Frame) []Val {
+	root := e.rootFr
+	if root == nil {
+		return nil
+	}
+	loops := e.loopsOf(root.fn)
+	out := make([]Val, len(loops))
+	for i := range out {
+		out[i] = mkInt(IntLit(-1))
+	}
+	// the frame executing inside the root function (the call may sit in an inlined callee: use the root frame)
+	f := fr
+	for f != nil && f.fn != root.fn {
+		f = f.parent
+	}
+	if f == nil || f.cur == nil {
+		return out
+	}
+	for _, li := range loops {
+		if !li.blocks[f.cur] || li.ord >= len(out) {
+			continue
+		}
+		if nb, ok := f.names[fmt.Sprintf("rangeindex_%d", li.ord)]; ok && len(nb.V.L) == 1 {
+			out[li.ord] = mkInt(Add(nb.V.L[0], IntLit(1)))
+		}
+	}
+	return out
+}
+
+func (e *Engine) numRootLoops() int {
+	if e.rootFr == nil {
+		return 0
+	}
+	return len(e.loopsOf(e.rootFr.fn))
 }
